@@ -175,10 +175,25 @@ func runCheck(args []string) int {
 	}
 
 	// smoke (vacuity) checks
-	for _, name := range names {
-		if msg := smoke(p, p.funcs[name], p.cs.Funcs[name]); msg != "" {
-			fmt.Printf("VACUOUS-CONTRACT: %s: %s\n", name, msg)
-			return 2
+	{
+		var swg sync.WaitGroup
+		vac := make([]string, len(names))
+		for i, name := range names {
+			i, name := i, name
+			swg.Add(1)
+			go func() {
+				defer swg.Done()
+				if msg := smoke(p, p.funcs[name], p.cs.Funcs[name]); msg != "" {
+					vac[i] = fmt.Sprintf("VACUOUS-CONTRACT: %s: %s", name, msg)
+				}
+			}()
+		}
+		swg.Wait()
+		for _, v := range vac {
+			if v != "" {
+				fmt.Println(v)
+				return 2
+			}
 		}
 	}
 
@@ -416,7 +431,7 @@ func smoke(p *Program, fn *ssa.Function, fc *FuncC) string {
 	if i := strings.Index(pre, "(define-fun ob~1 "); i >= 0 {
 		pre = pre[:i]
 	}
-	r := solve(pre+"(check-sat)\n", 3, "")
+	r := solve(pre+"(check-sat)\n", 2, "z3-5.1.0")
 	if r.Result == "unsat" {
 		return "the requires clauses (with the typing facts) are contradictory"
 	}
